@@ -232,6 +232,10 @@ func ContractCode(kind ContractKind, variant byte, decimals byte) []byte {
 		return deployer(ctor, runtimeSuicide())
 	case CForward:
 		return deployer(ctor, runtimeForward())
+	case CRepeat:
+		return deployer(ctor, runtimeRepeat())
+	case CVault:
+		return deployer(ctor, runtimeVault())
 	}
 	panic(fmt.Sprintf("txgen: no code for contract kind %q", kind))
 }
